@@ -102,7 +102,10 @@ def membership(res, cases, tag="sem"):
     parsed = {}
     for qi in {c[0] for c in cases}:
         try:
-            parsed[qi] = (tsparse.coq_ty(tsparse.parse_type(res["q"][qi]["name"])), tsparse.coq_ty(tsparse.parse_type(res["q"][qi]["inline"])))
+            tn = tsparse.coq_ty(tsparse.parse_type(res["q"][qi]["name"]))
+            inl = res["q"][qi]["inline"]
+            ti = tn if inl.startswith("\x00") else tsparse.coq_ty(tsparse.parse_type(inl))   # inline() panics for some library types: by name only
+            parsed[qi] = (tn, ti)
         except tsparse.ParseError:
             parsed[qi] = None
     idx = [c for c in range(len(cases)) if parsed[cases[c][0]] is not None]
